@@ -3,16 +3,47 @@
    Layers: F = documented format (Format.v), S = abstract spec (Spec/SpecStep), I = model of the Rust (World.step'). *)
 From Coq Require Import List NArith Bool Arith Sorted.
 From Coq Require Import Strings.Byte.
-Require Import BS.Bytes BS.Common BS.Api BS.Layout BS.Format BS.FormatFacts.
+Require Import BS.Bytes BS.Common BS.Api BS.Layout BS.Format BS.FormatFacts BS.Spec BS.SpecStep.
+Require Import BS.FS BS.FSFacts BS.Meta BS.MetaFacts BS.Header BS.Reader BS.ReaderFacts BS.Index BS.Data BS.DataFacts BS.Seek BS.Series BS.SeriesFacts.
 Import ListNotations.
 
-(* codec core, every payload size, every u64 timestamp, every payload byte pattern, every length:
-   the reference decoder returns exactly the appended lines *)
+(* (F) codec core, every payload size, every u64 timestamp, every payload byte pattern, every length *)
 Theorem C01_codec : forall (p:nat) (l:list line), wf_series p l -> decode p (encode p l) = Some l.
 Proof. exact decode_encode. Qed.
 Print Assumptions C01_codec.
 Check C01_codec : forall (p:nat) (l:list line), wf_series p l -> decode p (encode p l) = Some l.
 
-(* non-vacuity: a series with a marker-like payload and a delta over the 16 bit limit is well formed *)
+(* (I) the chunked reader with carry-over equals one uninterrupted pass of the line automaton over
+   the requested byte range, for every chunk size that is a multiple of the line size, any number
+   of chunks, any processor: a section may be split by any number of consecutive buffer boundaries *)
+Theorem C01_chunked_reader_is_one_pass :
+  forall (St:Type) (proc:St -> N -> list byte -> pres St) (p:nat) (cb:cbmode)
+         (n chunkn:nat) (region:list byte) (pos to_read:nat) (full:N) (st:rst) (acc:St),
+  chunkn > 0 -> chunkn mod (p + 2) = 0 -> to_read mod (p + 2) = 0 -> pos + to_read <= length region ->
+  to_read <= n * chunkn -> (5 <= BSgen.Consts.read_overlap_lines)%N ->
+  wf_rst p st -> Forall (fun s => length s = p + 2) (held_slots st) ->
+  chunk_loop St proc p cb n (N.of_nat chunkn) region (N.of_nat pos) (N.of_nat to_read) full (concat (held_slots st)) acc
+  = result_of St (scan_lines St proc p cb full st acc (chunks (p + 2) (firstn to_read (skipn pos region)))).
+Proof. exact chunk_loop_is_scan. Qed.
+Print Assumptions C01_chunked_reader_is_one_pass.
+
+(* (I vs F) the reader's line automaton (the five layouts as coded) hands the processor exactly the
+   lines the reference decoder yields, in order, as long as the decoder meets no lone marker *)
+Theorem C01_reader_automaton_is_reference_decoder :
+  forall (St:Type) (proc:St -> N -> list byte -> pres St) (p:nat) (cb:cbmode)
+         (ls:list slot) (f:N) (st:rst) (fs0:fstate) (acc:St) (i:nat) (lines:list line) (secs:list (N*N)) (g ss:nat),
+  match_st p f st fs0 -> Forall (fun s => length s = p + 2) ls ->
+  let s' := fold_left (fstep p) ls (mk fs0 i lines secs g ss) in
+  f_st s' <> FBad ->
+  exists newl f' st', f_lines s' = rev newl ++ lines /\ match_st p f' st' (f_st s')
+    /\ scan_lines St proc p cb f st acc ls
+       = match feed St proc acc newl with PCont a => LCont f' st' a | PStop a => LStop a | PPanic => LPanic end.
+Proof. exact sim_lines. Qed.
+Print Assumptions C01_reader_automaton_is_reference_decoder.
+
+(* (I) appends write exactly the reference encoding (see C15), so the data region of a series that
+   received the accepted lines l is encode p l: RepH is the invariant, established in props/C03.v *)
+
+(* non-vacuity *)
 Example C01_nonvacuous : wf_series 2 [(5%N, [xff; xff]); (70000%N, ["001"; "002"]%byte)].
 Proof. split; repeat constructor; cbn; try reflexivity. Qed.
